@@ -99,8 +99,23 @@ func body(s *simrt.Sim, tier string) {
 	var entries []*entry
 	nclients := 1 + s.Choose(2, "clients")
 	var plans [][]op
+	// one run in twelve follows a template: a job of the first generation is still running when the Cron is
+	// stopped and started again, and returns while the second generation is starting jobs
+	restartTemplate := s.Choose(12, "restart-template") == 0
 	for cl := 0; cl < nclients; cl++ {
 		var l []op
+		if restartTemplate && cl == 0 {
+			e := &entry{idx: len(entries), spec: "* * * * * *", gated: true}
+			sc, err := parser.Parse(e.spec)
+			if err != nil {
+				s.Fail("parse", err.Error())
+				return
+			}
+			e.sched = sc
+			entries = append(entries, e)
+			l = append(l, op{k: opAdd, e: e}, op{k: opStart}, op{k: opSleep, sleep: 1100 * time.Millisecond}, op{k: opStop}, op{k: opStart},
+				op{k: opSleep, sleep: []time.Duration{700 * time.Millisecond, 900 * time.Millisecond, 1900 * time.Millisecond}[s.Choose(3, "tmpl.sleep")]}, op{k: opRelease})
+		}
 		for j, n := 0, 3+s.Choose(8, "nops"); j < n; j++ {
 			switch k := s.Choose(14, "op"); {
 			case k < 2:
